@@ -13,7 +13,8 @@ RULE = (
     "Real SyncTransport + BaseMySensorsProtocol over a fake connection object (records writes; write on a closed "
     "connection raises OSError as pyserial does). Thread bodies: T0 = transport.send(cmd); T1 in "
     "{connection_lost(OSError), connection_lost(None), transport.disconnect(), lost-then-connection_made(new)}; "
-    "also two senders, and k producers calling tasks.add_job against the real _poll_queue loop. The bodies run "
+    "also two senders, k producers calling tasks.add_job against the real _poll_queue loop, and the real "
+    "TCPTransport.write over a local socket pair racing with a loss / a disconnect. The bodies run "
     "as real threads under sys.settrace; at every source line of mysensors/transport.py and mysensors/task.py the "
     "thread parks and the harness scheduler picks who runs next. ALL schedules with <= 2 pre-emptions (3 in the "
     "thorough tier; one less for the three-thread producer scenario) are enumerated by stateless DFS, plus Hypothesis-drawn unbounded schedules. Oracle per "
@@ -24,7 +25,7 @@ RULE = (
 )
 
 CMD = "1;1;1;0;2;1\n"
-SCENARIOS = ("lost_error", "lost_clean", "disconnect", "lost_then_made", "two_senders", "producers")
+SCENARIOS = ("lost_error", "lost_clean", "disconnect", "lost_then_made", "two_senders", "producers", "tcp_lost_error", "tcp_disconnect")
 
 
 class FakeConnection:
@@ -48,7 +49,7 @@ class FakeConnection:
 
 
 def files():
-    return (os.path.join("mysensors", "transport.py"), os.path.join("mysensors", "task.py"))
+    return (os.path.join("mysensors", "transport.py"), os.path.join("mysensors", "task.py"), os.path.join("mysensors", "gateway_tcp.py"))
 
 
 def make_scenario(name):
@@ -109,6 +110,23 @@ def make_scenario(name):
                 proto.connection_made(new)
 
             bodies = [t_send, lost_made]
+        elif name in ("tcp_lost_error", "tcp_disconnect"):
+            # the real TCPTransport.write over a real (local) socket pair; the reader thread is not started
+            import socket
+
+            from mysensors.gateway_tcp import TCPTransport
+
+            ours, peer = socket.socketpair()
+            peer.setblocking(False)
+            tcp = TCPTransport(ours, lambda: proto, lambda: None)
+            tcp.join = lambda timeout=None: None  # never started: nothing to wait for
+            tcp._lock = LazyLock()  # pylint: disable=protected-access  (a real lock would block inside C code)
+            proto.transport = tcp
+            ctx["peer"], ctx["ours"] = peer, ours
+            if name == "tcp_lost_error":
+                bodies = [t_send, lambda: proto.connection_lost(OSError("connection reset"))]
+            else:
+                bodies = [t_send, tr.disconnect]
         elif name == "two_senders":
             other = "2;2;1;0;2;0\n"
             ctx["sent_cmds"] = [CMD, other]
@@ -164,6 +182,16 @@ def judge(run, ctx, stats=None, origin="dfs"):
             f"[{name}] thread {idx} raised {type(exc).__name__}: {exc} under schedule {chosen}",
         )
     log = ctx["log"]
+    if "peer" in ctx:
+        try:
+            data = ctx["peer"].recv(4096)
+        except (BlockingIOError, OSError):
+            data = b""
+        finally:
+            ctx["peer"].close()
+            ctx["ours"].close()
+        if data:
+            log.append(("tcp", data, True))
     for conn_name, data, was_open in log:
         if not was_open:
             raise Violation(f"write_on_closed.{name}", case, f"[{name}] a write reached closed connection {conn_name}")
